@@ -23,7 +23,7 @@ func (c01) Meta(tier string) engine.Meta {
 	}
 	return engine.Meta{
 		Level: "model_checking",
-		Rule:  "type-directed enumeration of all well-typed programs up to the depth bound over the object alphabet (object literals in every field permutation, as list elements, map values, branches and arguments of polymorphic calls, projected by member / subscript) × {raw, host map, host struct} environments whose object values are stored in both field orders, plus every program over a host object compiled against one field order and invoked with the other; each on 4 back ends. Oracle: the real inferred type, the dynamic type of the result and of every component (own reader over exported fields) agree; no nil component. non-trivial = the program contains an object, list or map",
+		Rule:  "type-directed enumeration of all well-typed programs up to the depth bound over the object alphabet (object literals in every field permutation, as list elements, map values, branches and arguments of polymorphic calls, projected by member / subscript) × {raw, host map, host struct} environments whose object values are stored in both field orders, plus every program over a host object compiled against one field order and invoked with the other, plus every program of the untyped depth-1, homogeneity and variable-of-each-type corpora of C05 that the real checker accepts; each on 4 back ends. Oracle: the real inferred type, the dynamic type of the result and of every component (own reader over exported fields) agree; no nil component. non-trivial = the program contains an object, list or map",
 		Bound: "depth " + d + "; 2- and 3-field objects (all 2 / 6 permutations); containers of width <= 2",
 		Assumptions: []string{"reading values through exported Type / V fields; a worker crash while reading is attributed to the program"},
 	}
@@ -148,6 +148,21 @@ func (c01) Generate(tier string, yield func(*engine.Case) bool) {
 			}
 		}
 	}
+	// every program of the C05 untyped / homogeneity / overload corpora that the REAL checker accepts
+	// must also preserve its inferred type (ill-typed programs a broken checker lets through are
+	// exactly where preservation fails)
+	if ok {
+		c05{}.Generate(tier, func(c *engine.Case) bool {
+			switch c.Family {
+			case "untyped-0", "untyped-1", "homogeneity", "var-of-each-type":
+				cp := *c
+				cp.Family = "accepted/" + c.Family
+				cp.Args = []string{"c05"}
+				emit(&cp)
+			}
+			return ok
+		})
+	}
 	// host data whose Go field order differs from the compile-time sample
 	for _, rep := range []string{"struct", "map", "raw"} {
 		for _, compileFirst := range []bool{true, false} {
@@ -180,6 +195,16 @@ func (c01) Generate(tier string, yield func(*engine.Case) bool) {
 }
 
 func (c01) Run(c *engine.Case) *engine.Result {
+	if len(c.Args) > 0 && c.Args[0] == "c05" {
+		var d c05Data
+		if err := json.Unmarshal(c.Data, &d); err != nil {
+			panic(err)
+		}
+		p := observe(d.Term, d.Env, real.StdHost(), real.Backends, true)
+		res := &engine.Result{Execs: p.Execs, Outcome: p.outcomeSummary(), NonTrivial: p.RealTypeErr == "" && hasComposite(d.Term)}
+		res.Violations = p.judgePreservation()
+		return res
+	}
 	d := loadProg(c)
 	h := real.StdHost()
 	p := observe2(d.Term, d.Env, d.CallEnv, h, real.Backends, true)
